@@ -236,10 +236,10 @@ func (s *S) quiescent() bool {
 }
 
 // Settle waits until all controlled goroutines are parked, blocked or finished
-// (three consecutive quiescent observations). It panics after 20 s.
+// (three consecutive quiescent observations). It panics after 120 s.
 func (s *S) Settle() {
 	ok := 0
-	deadline := time.Now().Add(20 * time.Second)
+	deadline := time.Now().Add(120 * time.Second)
 	for ok < 3 {
 		runtime.Gosched()
 		if s.quiescent() {
@@ -251,7 +251,7 @@ func (s *S) Settle() {
 		if time.Now().After(deadline) {
 			buf := make([]byte, 1<<20)
 			n := runtime.Stack(buf, true)
-			panic(fmt.Sprintf("sched: no quiescence after 20s\n%s", buf[:n]))
+			panic(fmt.Sprintf("sched: no quiescence after 120s\n%s", buf[:n]))
 		}
 	}
 }
